@@ -144,6 +144,33 @@ def field_choice(rng):
     return {"sp": rng.random() < 0.6, "before": copy.deepcopy(rng.choice(G.COMMENTS))}
 
 
+NOISE_NAMES = ["ping", "keepalive", "endpoint", "x-é"]
+NOISE_DATA = ["keepalive", "{}", "{\"jsonrpc\":\"2.0\",\"method\":\"not/for/you\"}", "[1]", "{\"jsonrpc\":\"2.0\",\"id\":1,\"result\":{}}"]
+
+
+def ignored(rng):
+    return copy.deepcopy(rng.choice(G.COMMENTS))
+
+
+def noise_event(rng):
+    """an event of an SSE body that carries no message: data-less (typed keep-alive — also a data-less
+    `message` event —, comment-only event, extra blank line) or typed non-message with data"""
+    r = rng.random()
+    if r < 0.3:
+        return G.bare_event(rng.choice(NOISE_NAMES + ["message"]), nsp=rng.random() < 0.6, before=ignored(rng), after=ignored(rng))
+    if r < 0.5:
+        return G.bare_event(None, after=ignored(rng) or [{"c": " ka"}])
+    if r < 0.6:
+        return G.bare_event(None)
+    data = [rng.choice(NOISE_DATA) for _ in range(rng.choice([1, 1, 2]))]
+    return {"name": rng.choice(NOISE_NAMES), "data": data, "nc": field_choice(rng), "dc": [field_choice(rng) for _ in data],
+            "after": ignored(rng), "msg": None}
+
+
+def noise(rng, p=0.25):
+    return [noise_event(rng) for _ in range(rng.choice([1, 1, 2]))] if rng.random() < p else []
+
+
 def wire(rng, xs):
     nmsg = sum(len(x["notifs"]) + 1 for x in xs)
     w = {}
@@ -154,8 +181,10 @@ def wire(rng, xs):
     if rng.random() < 0.8:
         w["httpsse"] = [{
             "status": rng.choice([200, 200, 201]), "sess": rng.choice([None, "S-2"]),
-            "evs": [{"name": rng.choice([None, "message", "response"]), "nc": field_choice(rng), "dc": field_choice(rng)}
+            "evs": [{"name": rng.choice([None, "message", "response"]), "nc": field_choice(rng), "dc": field_choice(rng),
+                     "after": ignored(rng) if rng.random() < 0.3 else [], "before": noise(rng)}
                     for _ in range(len(x["notifs"]) + 1)],
+            "trailing": noise(rng),
             "eols": [rng.random() < 0.5 for _ in range(rng.choice([0, 4, 24]))],
             "tail": rng.choice(["full", "noblank", "noeol"])} for x in xs]
     if rng.random() < 0.8:
@@ -169,6 +198,7 @@ def wire(rng, xs):
     return w
 
 
+TIES = ["events", "timers", "io"]
 STYLES = [{"sp": False, "ascii": False}, {"sp": True, "ascii": True}, {"sp": False, "ascii": True}, {"sp": True, "ascii": False}]
 
 
@@ -177,7 +207,7 @@ def conversation(rng, names, all_carriers=None):
     if all_carriers is None:
         all_carriers = rng.random() < 0.4
     xs = [exchange(rng, names, max_notifs=0 if all_carriers else 3, k=k) for k in range(rng.choice([1, 1, 2, 2, 3, 4]))]
-    return {"xs": xs, "style": rng.choice(STYLES), "D": 5120, "wire": wire(rng, xs)}
+    return {"xs": xs, "style": rng.choice(STYLES), "D": 5120, "tie": rng.choice(TIES), "wire": wire(rng, xs)}
 
 
 def directed(rng, names):
@@ -190,7 +220,7 @@ def directed(rng, names):
         out.append({"xs": [{"call": c, "notifs": [], "reply": {"result": res}, "lat": 1, "gap": 1}], "style": STYLES[0], "D": 5120})
         for cls in range(3):
             out.append({"xs": [{"call": c, "notifs": [notif(rng)] if cls == 1 else [], "reply": error_reply(rng, cls), "lat": 1, "gap": 1}],
-                        "style": STYLES[cls % len(STYLES)], "D": 5120})
+                        "style": STYLES[cls % len(STYLES)], "D": 5120, "tie": TIES[cls]})
     return out
 
 
@@ -248,6 +278,19 @@ def shrink_candidates(case):
         for k in list(case["wire"]):
             c = copy.deepcopy(case)
             del c["wire"][k]
+            yield c
+    if case.get("tie", "events") != "events":
+        c = copy.deepcopy(case)
+        c["tie"] = "events"
+        yield c
+    for k, b in enumerate((case.get("wire") or {}).get("httpsse") or []):
+        if b.get("trailing") or any(e.get("before") or e.get("after") for e in b.get("evs") or []):
+            c = copy.deepcopy(case)
+            b2 = c["wire"]["httpsse"][k]
+            b2.pop("trailing", None)
+            for e in b2.get("evs") or []:
+                e.pop("before", None)
+                e.pop("after", None)
             yield c
     if case.get("style") != STYLES[0]:
         c = copy.deepcopy(case)
